@@ -201,7 +201,7 @@ def stream_post(out0, out1, res, E, limit):
 
 def limit_ok(limit):
     sh = TOpt(TInt)
-    return z3.Or(sh.is_none(limit), sh.val(limit) >= 1)
+    return z3.Or(sh.is_none(limit), sh.val(limit) >= 0)     # 0 is falsy: it means 'no limit', like None
 
 
 # ------------------------------------------------------------------------------- omen_generate_guesses
